@@ -99,7 +99,11 @@ fn pipeline_with(g: &mut Rng, sc: &mut Scenario, ci: usize, n: usize, bad_pos: u
             msgs.push(bad.clone());
             continue;
         }
-        msgs.push(Req::get(&id).bytes());
+        let mut rq = Req::get(&id);
+        if g.chance(1, 4) {
+            rq = rq.with_body(token_body("b", *g.pick(&[1usize, 700, 1024, 1025, 3000])));
+        }
+        msgs.push(spice(g, rq, true, true).bytes());
         let mut p = Program::respond(200, token_body(&id, *g.pick(&[0usize, 10, 2000])));
         if delays {
             p.delay = *g.pick(&[0u64, 0, MS, 5 * MS, 100 * MS]);
@@ -144,7 +148,13 @@ impl Campaign for C10c {
         let mut g = rng.sub("scenario");
         let n = g.usize(1, 4);
         let bad_pos = (index as usize) % n;
-        let (bad, tag) = bad_request(&mut g, &format!("c0r{}", bad_pos));
+        let (mut bad, mut tag) = bad_request(&mut g, &format!("c0r{}", bad_pos));
+        if tag.starts_with("version_above") && g.chance(1, 3) {
+            // a further rejected request directly behind the refused version (the connection stays usable after a 505)
+            let (bad2, tag2) = bad_request(&mut g, "c0r8");
+            bad.extend_from_slice(&bad2);
+            tag = format!("{}+{}", tag, tag2);
+        }
         let msgs = pipeline_with(&mut g, &mut sc, 0, n, bad_pos, bad, true);
         let seg = seg_of(&mut g);
         let mut c = ConnScript { steps: segment(&msgs, seg, *g.pick(&[0u64, MS]), &mut g), ..Default::default() };
